@@ -16,15 +16,11 @@ EXTENDS CipherOps, Json, TLC
 CONSTANT TraceFile
 Trace == ndJsonDeserialize(TraceFile)
 
-RECURSIVE Orig(_, _, _, _)
-\* the chunk sequence the writer of direction d produces for messages m..K
-\* starting in cipher state s
-Orig(d, m, K, s) ==
-    IF m > K THEN <<>>
-    ELSE LET s2 == Bump(s) IN
-         << [dir |-> d, gen |-> s.gen, nonce |-> s.nonce, part |-> "hdr", msg |-> m],
-            [dir |-> d, gen |-> s2.gen, nonce |-> s2.nonce, part |-> "body", msg |-> m] >>
-         \o Orig(d, m + 1, K, Bump(s2))
+\* the chunk sequence the writer of direction d produces for messages 1..K
+Orig(d, K) ==
+    [j \in 1..(2 * K) |->
+        [dir |-> d, gen |-> StAt(j - 1).gen, nonce |-> StAt(j - 1).nonce,
+         part |-> IF j % 2 = 1 THEN "hdr" ELSE "body", msg |-> (j + 1) \div 2]]
 
 S0 == [gen |-> 0, nonce |-> 0]
 OtherDir(d) == IF d = "c2s" THEN "s2c" ELSE "c2s"
@@ -35,8 +31,8 @@ ApplyOne(q, e, d, K) ==
     ELSE IF e.e = "swap" THEN SetAt(SetAt(q, e.i, q[e.i + 1]), e.i + 1, q[e.i])
     ELSE IF e.e = "corrupt" THEN SetAt(q, e.i, Junk)
     ELSE IF e.e = "inject" THEN InsertAt(q, e.i, Junk)
-    ELSE IF e.e = "replay" THEN InsertAt(q, e.i, Orig(d, 1, K, S0)[e.j])
-    ELSE IF e.e = "reflect" THEN InsertAt(q, e.i, Orig(OtherDir(d), 1, K, S0)[e.j])
+    ELSE IF e.e = "replay" THEN InsertAt(q, e.i, Orig(d, K)[e.j])
+    ELSE IF e.e = "reflect" THEN InsertAt(q, e.i, Orig(OtherDir(d), K)[e.j])
     ELSE IF e.e = "trunc" THEN SubSeq(q, 1, e.i)
     ELSE IF e.e = "cut" THEN Append(SubSeq(q, 1, e.i - 1), Junk)
     ELSE q
@@ -47,8 +43,7 @@ ApplyAll(q, es, d, K) ==
     ELSE ApplyAll(ApplyOne(q, Head(es), d, K), Tail(es), d, K)
 
 Predicted(ln) ==
-    Delivered(ln.dir, ApplyAll(Orig(ln.dir, 1, ln.nmsgs, S0), ln.edits, ln.dir,
-                               ln.nmsgs), S0, 0)
+    Delivered(ln.dir, ApplyAll(Orig(ln.dir, ln.nmsgs), ln.edits, ln.dir, ln.nmsgs))
 
 LineOK(ln) ==
     /\ ln.prefixOK = 1                       \* ReadPrefix on the real reader
